@@ -72,6 +72,35 @@ theorem C07_free_with_ia_parameter_refused (c : Content) (L : Lang) (free : List
     genModel [] c L free = .error (.other "NotImplementedError") :=
   genModel_free_refused c L free hcc hfree hia
 
+/-- … in particular whenever a parameter `q` defined by an initial assignment depends on a requested free parameter —
+    directly, or through any chain of derived values and other initial assignments, or not at all: the refusal does
+    not look at what `q` reads (a guard that only looks at the direct arguments of `q` would emit a function that
+    ignores the free parameter's value inside `q`; seeded change C07-r4-1). -/
+theorem C07_free_refused_for_any_ia_parameter (c : Content) (L : Lang) (free : List Name) (cache : Cache)
+    (hcc : createCache c = .ok cache) (hfree : free ≠ []) (q : Name) (f : Fn) (hq : (q, Val.ia f) ∈ c.pars) :
+    genModel [] c L free = .error (.other "NotImplementedError") := by
+  apply genModel_free_refused c L free hcc hfree
+  cases hn : noIA c.pars with
+  | false => rfl
+  | true =>
+    simp only [noIA, List.all_eq_true] at hn
+    have := hn _ hq
+    simp at this
+
+/-- **Free parameters are inputs, not constants** (`for key in free_parameters: parameters.pop(key)`, every
+    parameter table with distinct names, every list of free parameters): after the loop no requested name is left
+    among the parameters that are written as constants, every other parameter is still there with its value, and
+    nothing is added; together with `C07_return_order` (`p.extra = free`): the requested names are the extra inputs,
+    in the requested order, after `time` and the state vector (`runSLP`). -/
+theorem C07_free_parameters_popped (free : List Name) (m m' : List (Name × Rat)) (h : popAll m free = .ok m') :
+    (∀ k ∈ free, k ∉ omKeys m') ∧ (∀ kv ∈ m', kv ∈ m) ∧ (∀ kv ∈ m, kv.1 ∉ free → kv ∈ m') :=
+  popAll_spec free m m' h
+
+/-- a requested free parameter that is not a (plain or initial-assignment) parameter of the model: KeyError, no code -/
+theorem C07_free_parameter_unknown (free : List Name) (m : List (Name × Rat)) (h : ∃ k ∈ free, k ∉ omKeys m) :
+    ∃ k, popAll m free = .error (.keyError k) :=
+  popAll_missing free m h
+
 example : freeOkB wOk ["k"] [5] = true
     ∧ resEq (genRun [] wOk .ts ["k"] 1 [3, 5] [5]) (callRhs (setPars wOk ["k"] [5]) 1 [3, 5]) = true
     ∧ resEq (genRun [] wOk .ts ["k"] 1 [3, 5] [5]) (callRhs wOk 1 [3, 5]) = false := by decide +kernel
